@@ -73,7 +73,8 @@ def run(tier, seed):
                  "deferred entries happens only after input and directory stack are exhausted, list kept in decreasing path length; "
                  "(R5) the strings appended to the output path start at a byte != '/'; (R6) directory metadata is applied only to "
                  "directories whose mkdir succeeded in this run; (R6c) the link-following metadata setters (utime/chmod/chown) only ever receive a path the same call created with O_EXCL or mkdir, or a re-presented directory. Decides these necessary conditions, not the filesystem behaviour "
-                 "(kernel path resolution, crash points) and not collapse_path's internals.")
+                 "(kernel path resolution, crash points); (R7) is_dangerous_symlink is checked against the component scanner: a zero result only for a missing target or at the "
+                 "end of a target not starting with '/', every component boundary crossed under facts excluding '..' (E9 SCAN). collapse_path's internals: C11 R5.")
     with Context(tier) as ctx:
         from .. import selfcheck
         selfcheck.run(ctx, rep, ['facts'])
@@ -408,7 +409,7 @@ def run(tier, seed):
         while changed:
             changed = False
             for f in mod.defined():
-                if f.cname in fwd or not f.file.endswith("lha_reader.c"):
+                if f.cname in fwd or f.file.endswith("lha_arch_unix.c"):
                     continue
                 Mf = Matcher(f)
                 for c in f.insts():
@@ -421,8 +422,8 @@ def run(tier, seed):
                             break
         FAKE = mod.enums.get("CURR_FILE_FAKE_DIR")
         nsites = 0
-        for f in mod.defined():
-            if not f.file.endswith("lha_reader.c"):
+        for f in mod.defined():                      # every unit, library and tool alike: a setter called from src/ follows links just the same
+            if f.file.endswith("lha_arch_unix.c"):
                 continue
             Mf = Matcher(f)
             Ff = None
@@ -455,4 +456,19 @@ def run(tier, seed):
                           why or "no fact that lha_arch_fopen/lha_arch_mkdir succeeded for this path value (the setter would follow a symbolic link at that name)",
                           function=f.cname, obj="meta-%s-%d" % (cn, nsites))
         rep.check(rid, nsites >= 3, "metadata sites found", "lib/lha_reader.c", "%d sites, forwarding helpers %s" % (nsites, sorted(set(fwd) - set(META))), function="lha_reader.c", obj="sites")
+        # ---- R7: the detector itself ---------------------------------------------------------------------------------------------
+        rid = rep.rule("R7", "is_dangerous_symlink conforms to the component scanner: 'not dangerous' is returned only for a missing target, or at the end of a target "
+                             "that does not start with '/' after every '/'-terminated component and the last one were shown not to be '..'", 6)
+        ids = rep.need(rid, mod.fn("is_dangerous_symlink"), "function is_dangerous_symlink")
+        if ids:
+            from ..scan import check_detector
+            ok, problems, stats = check_detector(ids, ctx.facts(ids))
+            rep.extra["is_dangerous_symlink_paths"] = stats
+            for w_, text in problems:
+                rep.violation(rid, "is_dangerous_symlink: %s" % text, w_, "a link target that starts with '/' or has a '..' component can be reported as harmless (or the analysis cannot show otherwise): "
+                              "it would then be created at once instead of being deferred", function="is_dangerous_symlink", obj="scan")
+            if ok:
+                for k in ("copy", "accept", "report", "end-clean"):
+                    for _ in range(stats.get(k, 0)):
+                        rep.ok(rid, "is_dangerous_symlink: %s path conforms" % k, None, "%s:%s" % (ids.file, ids.line))
     return rep.finish(seed)
